@@ -12,7 +12,7 @@ def handleAlgoScalar : Sexp → Option Sexp
       match op with
       | "add" | "radd" => pure (polyToSexp (addScalar p k))
       | "sub" => pure (polyToSexp (subScalar p k))
-      | "rsub" => pure (polyToSexp (rsubScalarPy p k))
+      | "rsub" => pure (polyToSexp (rsubScalar p k))
       | "mul" => pure (polyToSexp (scale p k))
       | "rmul" => pure (polyToSexp (rscale p k))
       | "divmod" | "floormod" => pure (match divmodScalar p k with
